@@ -47,3 +47,36 @@ Definition w_facility_op : op := OAddFacility (S "f1") (Some (S "f")) (Some [S "
 Lemma add_facility_duplicate_refused :
   forall fl, step false fl empty_graph w_facility_op [] [] = (empty_graph, Some ETopology).
 Proof. intro fl. vm_compute. reflexivity. Qed.
+
+(* peer of a service with itself (through two handles, as topology.network_services hands them out): two service ports
+   of one name under the service (network_service.py:436 checks neither) *)
+Definition w_selfpeer_hist : list hstep := [(OAddNS (S "s1") (Some (S "a")) (S "L2Bridge") [], [], [])].
+Definition w_selfpeer_op : op := OPeer (S "a") (S "a").
+Definition w_selfpeer_ids : list str := [S "p1"; S "p2"; S "l1"].
+Lemma peer_self_refuted :
+  let g := run_hist false flags_off empty_graph w_selfpeer_hist in
+  WF g /\ ~ WF (fst (step false flags_off g w_selfpeer_op w_selfpeer_ids [])) /\
+  snd (step false flags_off g w_selfpeer_op w_selfpeer_ids []) = None.
+Proof. split; [apply wf_b_reflect; vm_compute; reflexivity | split; [apply not_WF_by_b; vm_compute; reflexivity | vm_compute; reflexivity]]. Qed.
+
+(* peer when a link already carries the derived name <a>-<b>-link: a second link of that name *)
+Definition w_peerlink_hist : list hstep :=
+  [(OAddNode (S "n1") (Some (S "n")) (S "VM"), [], []);
+   (OAddComponent (S "n") (S "c1") (Some (S "c")) (S "SmartNIC") (S "ConnectX-6") (Some (S "s")) (Some [S "i"; S "j"]), [], []);
+   (OAddNS (S "s1") (Some (S "a")) (S "L2Bridge") [], [], []);
+   (OAddNS (S "s2") (Some (S "b")) (S "L2Bridge") [], [], []);
+   (OAddLink (S "s1-s2-link") (Some (S "l")) (S "Patch") [S "i"; S "j"], [], [])].
+Definition w_peerlink_op : op := OPeer (S "a") (S "b").
+Lemma peer_link_name_refuted :
+  let g := run_hist false flags_off empty_graph w_peerlink_hist in
+  WF g /\ ~ WF (fst (step false flags_off g w_peerlink_op w_selfpeer_ids [])) /\
+  snd (step false flags_off g w_peerlink_op w_selfpeer_ids []) = None.
+Proof. split; [apply wf_b_reflect; vm_compute; reflexivity | split; [apply not_WF_by_b; vm_compute; reflexivity | vm_compute; reflexivity]]. Qed.
+
+(* with the proposed check (C07-7) both are refused and nothing changes *)
+Lemma peer_witnesses_refused_when_repaired :
+  step false flags_on (run_hist false flags_on empty_graph w_selfpeer_hist) w_selfpeer_op w_selfpeer_ids []
+    = (run_hist false flags_on empty_graph w_selfpeer_hist, Some ETopology) /\
+  step false flags_on (run_hist false flags_on empty_graph w_peerlink_hist) w_peerlink_op w_selfpeer_ids []
+    = (run_hist false flags_on empty_graph w_peerlink_hist, Some ETopology).
+Proof. vm_compute. split; reflexivity. Qed.
